@@ -194,6 +194,8 @@ class MergerCheck(Check):
     def generate(self, rng: random.Random, tier: str) -> dict:
         if rng.random() < 0.12:
             return self._gen_cut_and_merge(rng, tier)
+        if rng.random() < (0.004 if tier == "quick" else 0.002):
+            return self._gen_long_chain(rng)
         big = rng.random() < 0.3
         if big:
             n = rng.randint(30, 150)
@@ -222,6 +224,33 @@ class MergerCheck(Check):
                 model.groups = model.deleted(op["cells"])
                 model.deleted_any = True
             ops.append(op)
+        return {"kind": "history", "matrix": spec, "ops": ops}
+
+    def _gen_long_chain(self, rng):
+        """Real rate matrices have 10^3..10^5 cells and plateaus of neighbouring cells that are merged as one long
+        chain of pairs (what determine_rate_cells_to_join emits): recursion depth, quadratic searches and index
+        dtypes only show at this size."""
+        n = rng.randint(1010, 1300)
+        spec = {"n": n, "kind": rng.choice(["gen_sym", "gen_asym"]), "values": "int", "seed": rng.randrange(2 ** 32),
+                "density": 0.01, "scale_pow2": 0}
+        start = rng.randint(0, n - 1001)
+        length = rng.randint(1000, n - start)
+        chain = [[i, i + 1] for i in range(start, start + length - 1)]
+        order = rng.choice(["ascending", "descending", "both_directions", "shuffled"])
+        if order == "descending":
+            chain = [[b, a] for a, b in reversed(chain)]
+        elif order == "both_directions":
+            chain = [p for a, b in chain for p in ([a, b], [b, a])]
+        elif order == "shuffled":
+            rng.shuffle(chain)
+        ops = []
+        if rng.random() < 0.6:
+            # thread an index list first so that the re-indexing branch sees the chain
+            a, b = rng.sample(range(n), 2)
+            ops.append({"op": rng.choice(["merge", "delete"]), **({"lists": [[a, b]]} if True else {}), "faults": []})
+            if ops[0]["op"] == "delete":
+                ops[0] = {"op": "delete", "cells": [a], "faults": []}
+        ops.append({"op": "merge", "lists": chain, "faults": ["long_chain_" + order]})
         return {"kind": "history", "matrix": spec, "ops": ops}
 
     def _gen_merge(self, rng, model, n, fe, big):
@@ -281,6 +310,10 @@ class MergerCheck(Check):
         if "numpy_array_lists" in fe and lists and rng.random() < 0.25:
             op["as_array"] = True
             faults.append("numpy_array_lists")
+        elif lists and rng.random() < 0.2:
+            # the caller's container types: tuples / sets of cells, a tuple of sublists
+            op["container"] = rng.choice(["tuple", "set", "outer_tuple"])
+            faults.append("container_" + op["container"])
         # branches from the same state: step-wise delivery, permuted / duplicated re-delivery
         if lists and rng.random() < 0.5:
             op["stepwise"] = True
@@ -334,10 +367,15 @@ class MergerCheck(Check):
         if "numpy_array_lists" in fe and rng.random() < 0.3:
             op["as_array"] = True
             faults.append("numpy_array_lists")
+        elif rng.random() < 0.25:
+            op["container"] = rng.choice(["tuple", "set", "frozenset"])
+            faults.append("container_" + op["container"])
         return op
 
     def _gen_cut_and_merge(self, rng, tier):
         n = rng.choice([4, 5, 6, 8, 12, 20, rng.randint(30, 120)])
+        if rng.random() < 0.03:
+            n = rng.randint(1010, 1600)  # a realistic grid size with long plateaus
         # geometry: chain + a few random extra symmetric neighbour pairs
         pairs = {(i, i + 1) for i in range(n - 1)}
         for _ in range(rng.randint(0, n)):
@@ -346,9 +384,16 @@ class MergerCheck(Check):
         pairs = sorted(pairs)
         # energies with plateaus (so that the lower limit merges something) in kJ/mol
         T = rng.choice([200.0, 273.0, 300.0, 400.0])
-        levels = [round(rng.uniform(-20, 40), 3) for _ in range(rng.randint(1, max(1, n // 2)))]
+        levels = [round(rng.uniform(-20, 40), 3) for _ in range(rng.randint(1, max(1, min(n // 2, 40))))]
+        if n >= 1000:
+            levels = levels[:2]
         energies = [rng.choice(levels) + (0.0 if rng.random() < 0.6 else round(rng.uniform(-0.5, 0.5), 4))
                     for _ in range(n)]
+        if n >= 1000:
+            # one long plateau of neighbouring cells along the chain
+            a0 = rng.randint(0, n - 1001)
+            for i in range(a0, a0 + 1001):
+                energies[i] = levels[0]
         kT = 8.31446261815324e-3 * T  # kJ/mol
         # thresholds chosen half-way between distinct values of the compared quantities (never borderline)
         deltas = sorted({abs(energies[a] - energies[b]) / kT for a, b in pairs})
@@ -460,6 +505,12 @@ class MergerCheck(Check):
                 if strict != raw:
                     probes["ambiguous_absent_bridge"] = probes.get("ambiguous_absent_bridge", 0) + 1
                 arg = [np.array(s) for s in lists] if op.get("as_array") else lists
+                if op.get("container") == "tuple":
+                    arg = [tuple(s) for s in lists]
+                elif op.get("container") == "set":
+                    arg = [set(s) if len(set(s)) > 1 or len(s) == 1 else list(s) for s in lists]
+                elif op.get("container") == "outer_tuple":
+                    arg = tuple(list(s) for s in lists)
                 what = f"step {step} merge({_short(lists)})"
                 with lib_call(what + " [dense]"):
                     rd, ld = rm.merge_matrix_cells(cur_d, _cp(arg), index_list=_cp(il_d))
@@ -505,6 +556,13 @@ class MergerCheck(Check):
                 if len(exp) == 0:
                     continue  # never delete everything (shrinking may produce it)
                 arg = np.array(cells, dtype=int) if op.get("as_array") else list(cells)
+                cont = op.get("container")
+                if cont == "tuple":
+                    arg = tuple(cells)
+                elif cont == "set":
+                    arg = set(cells)
+                elif cont == "frozenset":
+                    arg = frozenset(cells)
                 if il_d is None:
                     # first operation of the history addresses rows directly; same thing while no list exists
                     pass
